@@ -86,6 +86,26 @@ func ruleENUMOMIT(c *Ctx) []Obligation {
 	for _, path := range []string{pkgIR} {
 		c.eachFunc(path, func(p *packages.Package, fd *ast.FuncDecl, fn *types.Func) {
 			info := p.TypesInfo
+			// printers only: the function returns text or writes to a builder / writer (a switch over
+			// a float kind that returns a bit size is not a spelling of the kind)
+			text := false
+			rs := fn.Type().(*types.Signature).Results()
+			for i := 0; i < rs.Len(); i++ {
+				if isStringNamed(rs.At(i).Type()) {
+					text = true
+				}
+			}
+			if !text {
+				ast.Inspect(fd.Body, func(m ast.Node) bool {
+					if call, ok := m.(*ast.CallExpr); ok && isWriteCall(info, call) != nil {
+						text = true
+					}
+					return !text
+				})
+			}
+			if !text {
+				return
+			}
 			n := 0
 			// switch F { case A, B: <F not printed> … default: <F printed> }
 			ast.Inspect(fd.Body, func(nd ast.Node) bool {
@@ -835,14 +855,16 @@ func ruleNUMFIRST(c *Ctx) []Obligation {
 		routines[sc.fn] = true
 	}
 	// helpers / method objects: climb to the exported numbering methods
-	for round := 0; round < 3; round++ {
+	for round := 0; round < 5; round++ {
 		c.eachFunc(pkgIR, func(p *packages.Package, fd *ast.FuncDecl, fn *types.Func) {
 			if routines[fn] {
 				return
 			}
 			ast.Inspect(fd.Body, func(n ast.Node) bool {
 				if call, ok := n.(*ast.CallExpr); ok {
-					if g := calleeOf(info, call); g != nil && routines[g] && !g.Exported() && strings.HasPrefix(fn.Name(), "Assign") {
+					// an unexported helper (or a method of a method object) on the way up, or the exported
+					// Assign… method at the top
+					if g := calleeOf(info, call); g != nil && routines[g] && !g.Exported() && (strings.HasPrefix(fn.Name(), "Assign") || !fn.Exported()) {
 						routines[fn] = true
 					}
 				}
@@ -861,6 +883,13 @@ func ruleNUMFIRST(c *Ctx) []Obligation {
 			case *ast.IfStmt:
 				if p.Init != nil && child == ast.Node(p.Init) {
 					continue
+				}
+				// `if f.Parent != nil { f.Parent.AssignGlobalIDs() }`: a nil test of the very object the
+				// routine is invoked on — without it there is nothing to number (and the call would panic)
+				if be, ok := unparen(p.Cond).(*ast.BinaryExpr); ok && be.Op == token.NEQ && exprString(be.Y) == "nil" && child == ast.Node(p.Body) {
+					if se, ok := unparen(call.Fun).(*ast.SelectorExpr); ok && exprString(se.X) == exprString(be.X) {
+						continue
+					}
 				}
 				return false, "inside `if " + exprString(p.Cond) + "`"
 			case *ast.BlockStmt:
@@ -986,6 +1015,78 @@ func ruleNUMFIRST(c *Ctx) []Obligation {
 			}
 			return true
 		})
+	})
+	// the module printer numbers the locals of every function before it writes anything: a global
+	// printed ahead of the functions may name a local of one of them (blockaddress(@f, %2))
+	c.eachFunc(pkgIR, func(p *packages.Package, fd *ast.FuncDecl, fn *types.Func) {
+		if routines[fn] {
+			return
+		}
+		// the module printer: a method of *Module that calls two module-level routines (global and
+		// metadata IDs) at its top level
+		if r := fn.Type().(*types.Signature).Recv(); r == nil || !isNamedPtr(r.Type(), pkgIR, "Module") {
+			return
+		}
+		modRoutines := 0
+		for _, st := range fd.Body.List {
+			ast.Inspect(st, func(n ast.Node) bool {
+				if call, ok := n.(*ast.CallExpr); ok {
+					if g := calleeOf(info, call); g != nil && routines[g] && g.Exported() {
+						if r := g.Type().(*types.Signature).Recv(); r != nil && isNamedPtr(r.Type(), pkgIR, "Module") {
+							modRoutines++
+						}
+					}
+				}
+				return true
+			})
+		}
+		if modRoutines < 2 {
+			return
+		}
+		o := Obligation{Key: funcKey(fn) + " numbers the locals of every function before the first write", Pos: c.pos(fd.Pos()), Verdict: VIOL,
+			Detail: "no loop over the module's functions that calls the local-ID routine stands ahead of the first write: the locals of a function are numbered only when that function is printed, so a global printed before it that refers to one of its unnamed blocks (blockaddress(@f, <unnamed block>)) shows the unassigned ID on the first print (%0) and the right one on the second — two prints in a row differ, and the first names another value"}
+		firstWrite := token.NoPos
+		for _, st := range fd.Body.List {
+			w := false
+			ast.Inspect(st, func(n ast.Node) bool {
+				if _, isLit := n.(*ast.FuncLit); isLit {
+					return false
+				}
+				if call, ok := n.(*ast.CallExpr); ok {
+					if isWriteCall(info, call) != nil {
+						w = true
+					}
+					if se, ok := unparen(call.Fun).(*ast.SelectorExpr); ok && strings.HasPrefix(se.Sel.Name, "Fprint") {
+						w = true
+					}
+				}
+				return !w
+			})
+			if w {
+				firstWrite = st.Pos()
+				break
+			}
+		}
+		for _, st := range fd.Body.List {
+			if firstWrite != token.NoPos && st.Pos() >= firstWrite {
+				break
+			}
+			rs, ok := st.(*ast.RangeStmt)
+			if !ok || !strings.HasSuffix(exprString(rs.X), ".Funcs") {
+				continue
+			}
+			ast.Inspect(rs.Body, func(n ast.Node) bool {
+				if call, ok := n.(*ast.CallExpr); ok {
+					if g := calleeOf(info, call); g != nil && routines[g] {
+						if r := g.Type().(*types.Signature).Recv(); r != nil && isNamedPtr(r.Type(), pkgIR, "Func") {
+							o.Verdict, o.Pos, o.Detail = OK, c.pos(call.Pos()), "every function is numbered in a loop ahead of the first write"
+						}
+					}
+				}
+				return true
+			})
+		}
+		obs = append(obs, o)
 	})
 	return obs
 }
